@@ -39,6 +39,10 @@ type hcRun struct {
 	entries map[int]ipfslog.Entry
 	ids     map[string]int
 	nloc    int
+	// a write held after its append (WriteBegin .. WriteEnd)
+	writing bool
+	wdone   chan error
+	wentry  ipfslog.Entry
 }
 
 func (r *hcRun) violate(kind, detail string, exp, got interface{}) {
@@ -173,6 +177,49 @@ func (r *hcRun) apply(st Step) error {
 		}
 		r.entries[id] = op.GetEntry()
 		r.ids[op.GetEntry().GetHash().String()] = id
+	case "WriteBegin":
+		// a write on a store that has not loaded, held between the append of its entry and what follows
+		if r.a == nil {
+			return fmt.Errorf("write while the process is down")
+		}
+		r.nloc++
+		id := 100 + r.nloc
+		store := r.a.S
+		sim.TheHub.ParkAt("write.appended", func(args []interface{}) bool { return len(args) > 0 && sim.K(args[0]) == sim.K(store) })
+		r.wdone = make(chan error, 1)
+		go func() {
+			op, err := store.(orbitdb.KeyValueStore).Put(context.Background(), fmt.Sprintf("k%d", id), []byte("x"))
+			if err == nil {
+				r.wentry = op.GetEntry()
+			}
+			r.wdone <- err
+		}()
+		p := parkedFor("write.appended", nil, 4*time.Second)
+		if p == nil {
+			return fmt.Errorf("the write did not reach its append")
+		}
+		if len(p.Args) > 1 {
+			if e, ok := p.Args[1].(ipfslog.Entry); ok {
+				r.entries[id] = e
+				r.ids[e.GetHash().String()] = id
+			}
+		}
+		r.writing = true
+		return nil
+	case "WriteEnd":
+		sim.TheHub.ReleaseAll()
+		select {
+		case err := <-r.wdone:
+			if err != nil {
+				r.violate("write-error", fmt.Sprintf("write %d failed: %v", 100+r.nloc, err), nil, nil)
+				return errDriftHC
+			}
+		case <-time.After(10 * time.Second):
+			return fmt.Errorf("the held write does not return")
+		}
+		r.entries[100+r.nloc] = r.wentry
+		r.ids[r.wentry.GetHash().String()] = 100 + r.nloc
+		r.writing = false
 	case "Replicate":
 		h := asInt(st.Args[0])
 		if err := r.a.S.Sync(ctx, []ipfslog.Entry{copyEntry(r.entries[h])}); err != nil {
@@ -307,7 +354,7 @@ func (r *hcRun) run(b Behaviour, idx int) {
 				r.violate("log-differs", fmt.Sprintf("after %s%v the log in memory holds %v, the specification %v", st.Action, st.Args, got, want), want, got)
 				return
 			}
-			if view := r.viewOf(r.a); !eqInts(view, got) {
+			if view := r.viewOf(r.a); !r.writing && !eqInts(view, got) {
 				r.violate("view-differs", fmt.Sprintf("after %s%v the log holds %v and the view shows the keys of %v", st.Action, st.Args, got, view), got, view)
 			}
 		}
